@@ -1214,3 +1214,13 @@ func (f *Func) resolveValue(e ast.Expr) (*Func, ast.Expr) {
 	}
 	return cur, x
 }
+
+// isCondition: n lies inside a branch condition of the graph.
+func (g *Graph) isCondition(n ast.Node) bool {
+	for _, cv := range g.condVertices() {
+		if encloses(g.node[cv-1], n) {
+			return true
+		}
+	}
+	return false
+}
